@@ -18,6 +18,7 @@ This module provides:
 - HolographicPatternError: Exception for parsing errors
 """
 
+import re
 from dataclasses import dataclass
 from typing import Any
 
@@ -89,6 +90,11 @@ class HolographicPattern:
         return f"[{''.join(parts)}]"
 
 
+# Escape sequences of a quoted example, read in one left-to-right pass (the same four the lexer reads)
+_EXAMPLE_ESCAPES = {'"': '"', "\\": "\\", "n": "\n", "t": "\t"}
+_EXAMPLE_UNESCAPE = re.compile(r'\\(["\\nt])')
+
+
 def _parse_example_value(value_str: str) -> Any:
     """Parse example value from pattern string.
 
@@ -107,9 +113,9 @@ def _parse_example_value(value_str: str) -> Any:
     """
     value_str = value_str.strip()
 
-    # Handle quoted strings
-    if value_str.startswith('"') and value_str.endswith('"'):
-        return value_str[1:-1]
+    # Handle quoted strings (escape sequences as in any OCTAVE string: \" \\ \n \t)
+    if value_str.startswith('"') and value_str.endswith('"') and len(value_str) >= 2:
+        return _EXAMPLE_UNESCAPE.sub(lambda m: _EXAMPLE_ESCAPES[m.group(1)], value_str[1:-1])
 
     # Handle boolean literals
     if value_str == "true":
